@@ -70,6 +70,12 @@ CHECKS = {
             "pytree-structured rollouts (every leaf tagged) and visit counts decoded from the real PPO.train are validated against it.",
             "fresh shuffle per epoch decided existentially over runs; visit counts decoded through SGD(1) value entries.",
             "DESIGN.md section 4 C09"),
+    "C14": ("TLA+ Spaces term model: TLC checks its laws on the case universe; every real contains/sample/canonical/flatten/==/hash/Gym round-trip case validated by TLC",
+            "Spaces.tla defines membership, flat size, flattening and equality of space terms from the property text; TLC checks "
+            "the model's own laws on the generated universe (nested Dict/Tuple, infinite bounds, boundary / malformed candidates) "
+            "and judges every answer of the real space classes case by case.",
+            "probes restricted to inputs whose verdict the property text fixes; continuous samples are abstracted soundly for membership.",
+            "DESIGN.md section 4 C14"),
 }
 
 PENDING_REASON = "check not built yet in this round (planned: see DESIGN.md section 4); not claimed until its machinery exists"
